@@ -216,6 +216,13 @@ class Session:
         g = Glue(self)
         g.exact_overflow = True
         g.install(FP)
+        return g
+
+    def use_absdec(self):
+        """tier 5e: floatBits over an abstract decimal whose Shift / RoundedInteger follow their contracts"""
+        from .absdec import AbsDec
+        g = self.use_slowpath()
+        AbsDec(self, g).install(FP)
 
     def use_float_contract(self):
         """replace fp.ParseJSONFloatPrefix by the harness contract vFloatStub"""
